@@ -3,7 +3,7 @@ def kind_re(kinds):
     # the fault kind (with or without variant) as the single fault or as an ingredient of a shrunk multi-fault set
     alt="|".join(re.escape(k) for k in kinds)
     return r".*(?:\||\+|\|multi-fault:)(?:%s)(?::[a-z0-9-]+)*(?:\+[^|]+)?(?:\|.*)?" % alt
-P=r"(?:cli-|rec-)?"
+P=r"(?:cli-|rec-|isl-)?"
 FAMS=[
  ("C07-FAM1","F3", P+r".*", kind_re(["cross-zone-signature"]),
   "C07-F3 family (RRSIG signer name not tied to the zone of the RRset; ancestor signer names are accepted, RFC 4035 5.3.1): every violation whose shrunk fault set contains a cross-zone signature, at any observation point (validator, server AD/CD, DnssecClient, validating Recursor)"),
